@@ -168,6 +168,18 @@ UgridNames(vs) == UgridBase
 \* (desc[g].shape, e.g. <<3, 6>>, <<5, 6, 7>>, <<3, 4, 3, 5>>), so TLC enumerates the size spreads
 MeshOf(g, shape) == StripMesh(shape)
 
+\* WHERE on the sphere the mesh sits is a generated parameter too: node 0 of the strip is put at a
+\* distance `off` (micro-degrees) from an anchor - a pole, or the antimeridian (approached from the
+\* east or the west side) - or somewhere unremarkable.  The library documents that a direction with
+\* |z| > 1 - 1e-8 is the pole (ERROR_TOLERANCE; C04: "the library's 1e-8 pole-snapping tolerance"),
+\* i.e. 1 - cos(d) <= 1e-8, d <= 0.0081 degrees: non-zero pole distances inside that zone are
+\* not positions the library distinguishes and are not generated.
+PoleSnapMicroDeg == 8100
+Offsets == { 0, 1000, 10000, 100000, 200000, 300000, 1000000 }       \* 0, 1e-3, 0.01, 0.1, 0.2, 0.3, 1 degree
+Places == { [ anchor |-> "mid", off |-> 0 ] }
+          \cup { [ anchor |-> a, off |-> o ] : a \in { "npole", "spole" }, o \in { x \in Offsets : x = 0 \/ x > PoleSnapMicroDeg } }
+          \cup { [ anchor |-> a, off |-> o ] : a \in { "amer_east", "amer_west" }, o \in Offsets }
+
 NoBack == [ st |-> "none", ok |-> TRUE, closed |-> FALSE ]
 
 (* ---- judging one export when it is produced --------------------------------- *)
